@@ -16,7 +16,7 @@ EscKeys == {"q\"uote", "back\\slash", "new\nline", "k\té ✓"}
 EscShapes == {<<"I64">>, <<"Str">>, <<"StrCtl">>, <<"Seq", "F64">>, <<"MapKey", "I64", "Str">>, <<"None">>}
 UserAtoms == {"Null", "Bool", "I64", "U64Big", "I128", "U128", "F64", "NaN", "Inf", "Str", "StrCtl",
               "StrUni", "Bytes", "Struct", "EnumUnit", "EnumNewtype", "None", "Err", "ErrChain",
-              "Level", "Reent", "DispVal", "DbgVal"}
+              "Level", "Reent", "DispVal", "DbgVal", "I128Small", "U128Small"}
 InnerQuick == {"I64", "U128", "F64", "NaN", "StrUni", "None", "Bytes", "Struct"}
 Inner == IF Tier = "thorough" THEN UserAtoms ELSE InnerQuick
 KeyInner == IF Tier = "thorough" THEN InnerQuick \cup {"Str"} ELSE {"I64", "Str"}
@@ -100,10 +100,22 @@ MetricHdr(agg, v) ==
     <<P("evt_kind", <<"KindMetric">>), P("metric_name", <<"Str">>)>>
     \o (IF agg = "none" THEN <<>> ELSE <<P("metric_agg", <<agg>>)>>)
     \o <<P("metric_value", v)>>
+\* a metric sample without a metric_name (its name is the rendered message)
+MetricHdrNoName(agg, v) ==
+    <<P("evt_kind", <<"KindMetric">>)>>
+    \o (IF agg = "none" THEN <<>> ELSE <<P("metric_agg", <<agg>>)>>)
+    \o <<P("metric_value", v)>>
 Aggs == {"none", "AggCount", "AggSum", "AggLast"}
+\* values that are not points: the sample is carried as a log record (Encode!RouteA)
+NonNumericMetricValues == {<<"Null">>, <<"None">>, <<"Bool">>, <<"Str">>, <<"StrUni">>, <<"Seq", "Str">>,
+                           <<"Seq", "Seq", "I64">>, <<"MapStr", "I64">>, <<"Struct">>, <<"Some", "Str">>,
+                           <<"EnumUnit">>}
 \* (integers beyond i64 are carried as the nearest double: a data point cannot be text)
 MetricValues == {<<"I64">>, <<"F64">>, <<"Seq", "I64">>, <<"Seq", "F64">>, <<"NaN">>, <<"Inf">>,
-                 <<"U64Big">>, <<"I128">>, <<"U128">>, <<"Arr", "F64">>}
+                 <<"U64Big">>, <<"I128">>, <<"U128">>, <<"Arr", "F64">>,
+                 \* 128-bit typed values that fit 64 bits
+                 <<"I128Small">>, <<"U128Small">>, <<"Seq", "U128Small">>}
+                \cup (IF Tier = "small" THEN {} ELSE NonNumericMetricValues)
 MainMetricHdrs == {MetricHdr("AggSum", <<"F64">>), MetricHdr("AggLast", <<"Seq", "F64">>)}
 
 BaseEvents ==
@@ -111,6 +123,13 @@ BaseEvents ==
     \cup {[kind |-> "span", extent |-> "range", props |-> SpanHdr \o e] : e \in ExtraSeqs}
     \cup {[kind |-> "metric", extent |-> x, props |-> MetricHdr(a, v) \o e] :
               x \in Extents \cup OddExtents, a \in Aggs, v \in MetricValues, e \in FewExtras}
+    \cup (IF Tier = "small" THEN {} ELSE
+          {[kind |-> "metric", extent |-> x, props |-> MetricHdrNoName(a, v) \o e] :
+              x \in Extents, a \in Aggs, v \in {<<"I64">>, <<"Seq", "F64">>, <<"Str">>}, e \in FewExtras})
+    \* an event of kind metric without a metric_value: no points, carried as a log record
+    \cup (IF Tier = "small" THEN {} ELSE
+          {[kind |-> "metric", extent |-> x, props |-> <<P("evt_kind", <<"KindMetric">>), P("metric_name", <<"Str">>)>> \o e] :
+              x \in Extents, e \in FewExtras \cup {<<P("metric_agg", <<"AggSum">>)>>}})
     \cup (IF Tier = "small" THEN {} ELSE
           {[kind |-> "log", extent |-> x, props |-> e] : x \in OddExtents, e \in LiteExtras}
           \cup {[kind |-> "span", extent |-> x, props |-> SpanHdr \o e] : x \in OddExtents, e \in LiteExtras}
@@ -120,12 +139,12 @@ BaseEvents ==
               x \in Extents, h \in MainMetricHdrs, e \in ExtraSeqs}
 
 WithCarrier(e, c, n) ==
-    [kind |-> e.kind, extent |-> e.extent, props |-> e.props, carrier |-> c, split |-> n, tpl |-> "hole"]
+    [kind |-> e.kind, extent |-> e.extent, props |-> e.props, carrier |-> c, split |-> n, tpl |-> "hole", dur |-> "any", mdl |-> "two"]
 
 \* template forms: a plain hole `{a}` (everywhere else), a hole with a formatter, no hole at all
 TplEvents ==
     IF Tier = "small" THEN {} ELSE
-    {[kind |-> h.kind, extent |-> h.extent, props |-> h.hdr \o e, carrier |-> "slice", split |-> Len(h.hdr \o e), tpl |-> t] :
+    {[kind |-> h.kind, extent |-> h.extent, props |-> h.hdr \o e, carrier |-> "slice", split |-> Len(h.hdr \o e), tpl |-> t, dur |-> "any", mdl |-> "two"] :
         h \in {[kind |-> "log", extent |-> "point", hdr |-> <<>>], [kind |-> "span", extent |-> "range", hdr |-> SpanHdr],
                [kind |-> "metric", extent |-> "point", hdr |-> MetricHdr("AggSum", <<"F64">>)]},
         t \in {"fmt_hole", "literal"},
@@ -159,7 +178,28 @@ CarrierEvents ==
     \ {e \in {WithCarrier([kind |-> h.kind, extent |-> h.extent, props |-> h.hdr \o sd[1] \o sd[2]], "ambient", Len(h.hdr) + Len(sd[1])) :
                   h \in CarrierHdrs, sd \in {x \in CarrierSides : ~AmbientOK(x[2])}} : TRUE}
 
-MC_Events == {WithCarrier(e, "slice", Len(e.props)) : e \in BaseEvents} \cup CarrierEvents \cup TplEvents
+\* the length of a range extent by magnitude class (everywhere else the harness draws a length):
+\* zero, nanoseconds, microseconds, milliseconds, seconds, minutes and more
+DurClasses == {"zero", "ns", "us", "ms", "s", "min"}
+DurEvents ==
+    IF Tier = "small" THEN {} ELSE
+    {[kind |-> h.kind, extent |-> "range", props |-> h.hdr \o e, carrier |-> "slice", split |-> Len(h.hdr \o e), tpl |-> "hole", dur |-> d, mdl |-> "two"] :
+        h \in {[kind |-> "log", hdr |-> <<>>], [kind |-> "span", hdr |-> SpanHdr],
+               [kind |-> "metric", hdr |-> MetricHdr("AggSum", <<"F64">>)]},
+        d \in DurClasses,
+        e \in {<<P("a", <<"I64">>)>>, <<P("span_id", <<"IdTyped">>), P("lvl", <<"Level">>)>>}}
+
+\* the module path by shape: one segment, two (everywhere else), three
+MdlShapes == {"one", "three"}
+MdlEvents ==
+    IF Tier = "small" THEN {} ELSE
+    {[kind |-> h.kind, extent |-> h.extent, props |-> h.hdr \o e, carrier |-> "slice", split |-> Len(h.hdr \o e), tpl |-> "hole", dur |-> "any", mdl |-> m] :
+        h \in {[kind |-> "log", extent |-> "point", hdr |-> <<>>], [kind |-> "span", extent |-> "range", hdr |-> SpanHdr],
+               [kind |-> "metric", extent |-> "point", hdr |-> MetricHdr("AggSum", <<"F64">>)]},
+        m \in MdlShapes,
+        e \in {<<>>, <<P("a", <<"I64">>)>>, <<P("span_id", <<"IdTyped">>), P("lvl", <<"Level">>)>>}}
+
+MC_Events == {WithCarrier(e, "slice", Len(e.props)) : e \in BaseEvents} \cup CarrierEvents \cup TplEvents \cup DurEvents \cup MdlEvents
 
 ASSUME PrintT(<<"TABLES", ToJson(Tables)>>)
 ASSUME PrintT(<<"NEVENTS", Cardinality(MC_Events)>>)
